@@ -291,7 +291,9 @@ def run(ctx: Context) -> None:
             good = False
             # the returned name is known, on every path to the return, not to be an existing dimension
             for test, pol in path_conditions(fu, r):
-                if isinstance(test, ast.Compare) and len(test.ops) == 1 and flow.canon(test.left) == flow.canon(r.value):
+                one_def = isinstance(r.value, ast.Name) and isinstance(test, ast.Compare) and isinstance(test.left, ast.Name) and test.left.id == r.value.id \
+                    and sum(1 for n_ in ast.walk(fu.node) if isinstance(n_, ast.Name) and n_.id == r.value.id and isinstance(n_.ctx, ast.Store)) == 1
+                if isinstance(test, ast.Compare) and len(test.ops) == 1 and (flow.canon(test.left) == flow.canon(r.value) or one_def):
                     if (isinstance(test.ops[0], ast.NotIn) and pol) or (isinstance(test.ops[0], ast.In) and not pol):
                         good = True
             # `return next(c for c in candidates if c not in existing)`
